@@ -163,12 +163,37 @@ def one(ctx, rng, tmpdir):
     ctx.sample({"reactions": [(r[2], r[0], r[1]) + tuple(r[4:5]) for r in spec["reactions"]], "rules": [(r[0], r[2]) for r in spec["rules"]], "stochastic_export": stochastic}, cap=3)
 
 
+def nested_power_rate(ctx, tmpdir):
+    """a general rate with a power of a power: the written MathML is right, the text the importer reads back from libsbml
+    (`a^b^c`) is not."""
+    from bioscrape.types import Model
+    for rate, left in (("k0*(A^K0)^n0", True), ("k0*A^(K0^n0)", False)):
+        spec = dict(species=["A", "B"], reactions=[([], ["B"], "general", {"rate": rate})], parameters={"k0": 2.0, "K0": 2.0, "n0": 3.0},
+                    initial_condition_dict={"A": 1.5, "B": 0})
+        rep = {"spec": spec, "rate": rate}
+        ctx.begin_case(rep)
+        M = Model(**spec)
+        path = os.path.join(tmpdir, "np.xml")
+        M.write_sbml_model(path)
+        M2 = Model(sbml_filename=path, sbml_warnings=False)
+        x = np.array([1.5, 0.0])
+        va = float(M.get_propensities()[0].py_get_propensity(x, M.get_parameter_values(), 0.0))
+        vb = float(M2.get_propensities()[0].py_get_propensity(np.array([1.5 if s_ == "A" else 0.0 for s_ in M2.get_species_list()]), M2.get_parameter_values(), 0.0))
+        ctx.evaluated()
+        if relerr(va, vb) > 1e-9:
+            ctx.violation("roundtrip/rate/general/left-nested-power" if left else "roundtrip/rate/general/nested-power",
+                          "general rate %s evaluates to %r before and %r after the SBML round trip" % (rate, va, vb), dict(rep, before=va, after=vb))
+        else:
+            ctx.count("nested_power_roundtrip_ok")
+
+
 def run(ctx):
     warnings.filterwarnings("ignore")
     n = 50 if ctx.quick() else 1500
     with tempfile.TemporaryDirectory(prefix="verif_c12_") as d:
         for i in range(n):
             one(ctx, ctx.rng, d)
+        nested_power_rate(ctx, d)
 
 
 def replay(ctx, obj):
